@@ -1,0 +1,75 @@
+//go:build verif
+
+package keystore
+
+// Contracts for govc (see /verif/DESIGN.md, C06): a new key is derived at the keystore's stored counter, the counter is
+// advanced past every issued index in the same transaction, and the ordinal reported for a key is the index it was
+// derived at.
+
+//@ spec func le32(b []byte) int = b[0] + b[1] * 256 + b[2] * 65536 + b[3] * 16777216
+
+//@ func uint32ToBytes
+//@   modifies nothing
+//@   ensures four-bytes-little-endian: fresh(result) && len(result) == 4 && le32(result) == number
+
+//@ func getChildNum
+//@   assert-at call Get counter-read-under-its-branch-key: arg1 == ite(internal, internalChildNumName, externalChildNumName)
+//@   ensures counter-is-the-stored-value: err == nil ==> result0 == le32(lastresult("Get"))
+
+//@ func updateChildNum
+//@   assert-at call Put counter-written-under-its-branch-key: arg1 == ite(internal, internalChildNumName, externalChildNumName) && len(arg2) == 4 && le32(arg2) == nextIndex
+
+//@ func putEncryptedPubKey
+//@   assert-at call Put stored-under-branch-then-index: len(arg1) == 8 && le32(arg1[0:4]) == branch && le32(arg1[4:8]) == index && arg2 == pubKey
+
+//@ func (*AddrManager).nextAddresses
+//@   assert-at call FetchBucket bucket-of-this-keystore: arg1 == a.storage
+//@   assert-at call getChildNum counter-of-this-keystore-and-branch: arg0 == lastresult("FetchBucket") && arg1 == internal
+//@   assert-at call Child#1 branch-key-of-the-account: arg1 == ite(internal, 1, 0)
+//@   assert-at call Child#2 derived-at-the-next-unused-index: arg0 == lastresult("Child#1") && arg1 == nextIndex && nextIndex >= lastresult("getChildNum") + i
+//@   assert-at call newManagedAddressFromExtKey address-carries-the-index-it-was-derived-at: arg1.Index == nextIndex - 1 && arg1.Branch == branch && arg2 == lastresult("Child#2")
+//@   assert-at call updateChildNum counter-advanced-past-every-issued-index: arg0 == lastresult("FetchBucket") && arg1 == internal && arg2 == nextIndex
+//@   loop #1 invariant count-and-counter: 0 <= i && i <= numAddresses && len(addressInfo) == i && nextIndex >= lastresult("getChildNum") + i
+//@   loop #1 invariant issued-indices-below-the-counter: forall j int :: 0 <= j && j < len(addressInfo) ==> addressInfo[j] != nil && lastresult("getChildNum") <= addressInfo[j].index && addressInfo[j].index < nextIndex
+//@   loop #1 invariant address-carries-its-index: forall j int :: 0 <= j && j < len(addressInfo) ==> addressInfo[j] != nil && addressInfo[j].managedAddr != nil && addressInfo[j].managedAddr.derivationPath.Index == addressInfo[j].index && addressInfo[j].branch == branch
+//@   loop #2 invariant count-and-counter: 0 <= i && i < numAddresses && len(addressInfo) == i && nextIndex >= lastresult("getChildNum") + i
+//@   loop #2 invariant issued-indices-below-the-counter: forall j int :: 0 <= j && j < len(addressInfo) ==> addressInfo[j] != nil && lastresult("getChildNum") <= addressInfo[j].index && addressInfo[j].index < nextIndex
+//@   loop #2 invariant address-carries-its-index: forall j int :: 0 <= j && j < len(addressInfo) ==> addressInfo[j] != nil && addressInfo[j].managedAddr != nil && addressInfo[j].managedAddr.derivationPath.Index == addressInfo[j].index && addressInfo[j].branch == branch
+//@   loop #3 invariant issued-indices-below-the-counter: forall j int :: 0 <= j && j < len(addressInfo) ==> addressInfo[j] != nil && lastresult("getChildNum") <= addressInfo[j].index && addressInfo[j].index < nextIndex
+//@   loop #3 invariant address-carries-its-index: forall j int :: 0 <= j && j < len(addressInfo) ==> addressInfo[j] != nil && addressInfo[j].managedAddr != nil && addressInfo[j].managedAddr.derivationPath.Index == addressInfo[j].index && addressInfo[j].branch == branch
+//@   loop #3 invariant returned-list-follows-the-issued-list: -1 <= #rangeindex && #rangeindex < len(addressInfo) && len(managedAddresses) == #rangeindex + 1 && len(addressInfo) == numAddresses && (forall j int :: 0 <= j && j < len(managedAddresses) ==> managedAddresses[j] == addressInfo[j].managedAddr)
+//@   loop #4 invariant issued-indices-below-the-counter: forall j int :: 0 <= j && j < len(addressInfo) ==> addressInfo[j] != nil && lastresult("getChildNum") <= addressInfo[j].index && addressInfo[j].index < nextIndex
+//@   loop #4 invariant address-carries-its-index: forall j int :: 0 <= j && j < len(addressInfo) ==> addressInfo[j] != nil && addressInfo[j].managedAddr != nil && addressInfo[j].managedAddr.derivationPath.Index == addressInfo[j].index && addressInfo[j].branch == branch
+//@   loop #4 invariant returned-list-follows-the-issued-list: len(managedAddresses) == numAddresses && len(addressInfo) == numAddresses && (forall j int :: 0 <= j && j < len(managedAddresses) ==> managedAddresses[j] == addressInfo[j].managedAddr)
+//@   assert-at call putEncryptedPubKey public-key-stored-under-its-branch-and-index: arg1 == addressInfo[#rangeindex + 1].branch && arg2 == addressInfo[#rangeindex + 1].index && arg3 == lastresult("Encrypt")
+//@   assert-at return#-1 as-many-keys-as-asked-each-at-a-fresh-index-below-the-stored-counter: len(managedAddresses) == numAddresses && (forall j int :: 0 <= j && j < len(managedAddresses) ==> managedAddresses[j] != nil && lastresult("getChildNum") <= managedAddresses[j].derivationPath.Index && managedAddresses[j].derivationPath.Index < nextIndex)
+
+//@ func newManagedAddressWithoutPrivKey
+//@   modifies nothing
+//@   ensures carries-its-path: err == nil ==> result0 != nil && fresh(result0) && deref(result0.derivationPath) == derivationPath && result0.pubKey == pubKey && result0.keystoreName == keystoreName
+//@ func newManagedAddress
+//@   modifies nothing
+//@   ensures carries-its-path: err == nil ==> result0 != nil && fresh(result0) && deref(result0.derivationPath) == derivationPath && result0.keystoreName == keystoreName
+//@ func newManagedAddressFromExtKey
+//@   ensures carries-its-path: err == nil ==> result0 != nil && fresh(result0) && deref(result0.derivationPath) == derivationPath && result0.keystoreName == keystoreName
+
+//@ func (*AddrManager).nextAddresses
+//@   ensures as-many-as-asked: err == nil ==> len(result0) == numAddresses && (forall j int :: 0 <= j && j < len(result0) ==> result0[j] != nil)
+
+//@ func (*AddrManager).updateManagedAddress
+//@   loop * invariant registered-so-far: -1 <= #rangeindex && #rangeindex < len(managedAddresses) && (forall j int :: 0 <= j && j <= #rangeindex ==> has(a.addrs, managedAddresses[j].address))
+//@   assert-at call fetchChildNum counters-refreshed-from-this-keystore-bucket: arg0 == lastresult("FetchBucket")
+
+//@ func (*KeystoreManagerForPoC).GenerateNewPublicKey$1
+//@   assert-at call nextAddresses one-key-on-the-external-branch-inside-the-transaction: arg1 == dbTransaction && arg2 == false && arg3 == 1
+//@ func (*KeystoreManagerForPoC).GenerateNewPublicKey$2
+//@   assert-at call updateManagedAddress the-keys-just-issued-become-findable: arg2 == managedAddresses
+
+//@ func (*KeystoreManagerForPoC).GenerateNewPublicKey
+//@   assert-at call SerializeCompressed public-key-of-the-issued-address: arg0 == managedAddr.pubKey
+//@   assert-at call ParsePubKey returned-key-is-that-public-key: arg0 == lastresult("SerializeCompressed")
+//@   assert-at return#-2 ordinal-is-the-derivation-index-of-the-returned-key: len(managedAddresses) == 0 || (result1 == managedAddresses[0].derivationPath.Index && result0 == lastresult("ParsePubKey"))
+
+//@ func (*KeystoreManagerForPoC).GetPublicKeyOrdinal
+//@   assert-at call newPoCAddress address-of-the-asked-key: arg0 == pubKey
+//@   assert-at return#3 ordinal-is-the-stored-derivation-index: result1 && result0 == mAddr.derivationPath.Index && mAddr == acctM.addrs[lastresult("EncodeAddress")]
